@@ -34,12 +34,23 @@ func TestC13(t *testing.T) {
 			sch := schema
 			if mixed && i == nsym-1 {
 				sch = append([]io.DataShape(nil), schema...)
-				k := rapid.IntRange(0, len(sch)-1).Draw(t, "retypeCol")
-				nt := rapid.SampledFrom(hx.WireTypes).Draw(t, "newType")
-				if nt != sch[k].Type {
-					realMixed = true
+				if len(sch) >= 2 && rapid.Bool().Draw(t, "permuteInsteadOfRetype") {
+					// same column names and types, stored in another order
+					perm := rapid.Permutation(sch).Draw(t, "columnOrder")
+					for j := range perm {
+						if perm[j].Name != sch[j].Name {
+							realMixed = true
+						}
+					}
+					sch = perm
+				} else {
+					k := rapid.IntRange(0, len(sch)-1).Draw(t, "retypeCol")
+					nt := rapid.SampledFrom(hx.WireTypes).Draw(t, "newType")
+					if nt != sch[k].Type {
+						realMixed = true
+					}
+					sch[k].Type = nt
 				}
-				sch[k].Type = nt
 			}
 			sc := buildStore(t, rec, storeOpts{variable: variable, in: in, sym: fmt.Sprintf("SY%d", i), tf: tf, schema: sch, pool: pool, maxReq: 2, maxRows: 12})
 			stores = append(stores, sc)
